@@ -8,16 +8,18 @@ open OQuPyVerif.TimeGrid OQuPyVerif.Generated.LoopOrder
 
 /-! ### the fault-free run ignores the book-keeping, and always completes -/
 
+@[simp] theorem noFault_raises (n : Nat) : noFault.raises n = false := rfl
+
 theorem runOps_noFault_ok (ops : List MicroOp) (l : Local) (b : BState) :
     (runOps noFault ops l b).2 = true := by
   induction ops generalizing l b with
   | nil => simp [runOps]
   | cons op rest ih =>
-    cases op <;> simp [runOps, noFault] <;> exact ih _ _
+    cases op <;> simp [runOps] <;> exact ih _ _
 
 /-- a completed run under any fault oracle has the same core as the fault-free run
     started from any state with the same core -/
-theorem runOps_ok_core (faulty : Nat → Bool) (ops : List MicroOp) (l : Local) (b b' : BState)
+theorem runOps_ok_core (faulty : Oracle) (ops : List MicroOp) (l : Local) (b b' : BState)
     (hc : b.core = b'.core) (hok : (runOps faulty ops l b).2 = true) :
     (runOps faulty ops l b).1.core = (runOps noFault ops l b').1.core := by
   induction ops generalizing l b b' with
@@ -26,9 +28,9 @@ theorem runOps_ok_core (faulty : Nat → Bool) (ops : List MicroOp) (l : Local) 
     cases op with
     | callUser i v =>
       simp only [runOps] at hok ⊢
-      by_cases hf : faulty b.calls = true
+      by_cases hf : faulty.raises b.calls = true
       · simp [hf] at hok
-      · simp only [hf, noFault] at hok ⊢
+      · simp only [hf, noFault_raises] at hok ⊢
         exact ih _ _ _ (by simpa using hc) hok
     | setStep v =>
       simp only [runOps] at hok ⊢
@@ -39,7 +41,7 @@ theorem runOps_ok_core (faulty : Nat → Bool) (ops : List MicroOp) (l : Local) 
     | store =>
       simp only [runOps] at hok ⊢
       exact ih _ _ _ (by simp [hc]) hok
-    | tryBegin =>
+    | tryBegin ca =>
       simp only [runOps] at hok ⊢
       rw [hc]
       exact ih _ _ _ hc (by rw [← hc]; exact hok)
@@ -49,6 +51,9 @@ theorem runOps_ok_core (faulty : Nat → Bool) (ops : List MicroOp) (l : Local) 
     | control p v => simp only [runOps] at hok ⊢; exact ih _ _ _ hc hok
     | record => simp only [runOps] at hok ⊢; exact ih _ _ _ hc hok
     | initResults => simp only [runOps] at hok ⊢; exact ih _ _ _ hc hok
+    | traceCompute => simp only [runOps] at hok ⊢; exact ih _ _ _ hc hok
+    | traceRead => simp only [runOps] at hok ⊢; exact ih _ _ _ hc hok
+    | traceClear => simp only [runOps] at hok ⊢; exact ih _ _ _ hc hok
 
 /-! ### an aborted run of a fault-safe list leaves the core untouched -/
 
@@ -58,10 +63,10 @@ theorem runOps_ok_core (faulty : Nat → Bool) (ops : List MicroOp) (l : Local) 
 def ScanInv (s : Scan) (l : Local) (c c0 : Core) : Prop :=
   s.dirty = false →
     c.step = c0.step ∧ c.stored = c0.stored ∧
-    (if s.inTry then l.snapshot = some c0.net ∧ (s.prot = false → c.net = c0.net)
+    (if s.inTry then l.snapshot = some c0.net ∧ l.catchAll = true ∧ (s.prot = false → c.net = c0.net)
      else l.snapshot = none ∧ c.net = c0.net)
 
-theorem runOps_fail_core (faulty : Nat → Bool) (ops : List MicroOp) (s : Scan) (l : Local)
+theorem runOps_fail_core (faulty : Oracle) (ops : List MicroOp) (s : Scan) (l : Local)
     (b : BState) (c0 : Core) (hs : scanOps ops s = true) (hinv : ScanInv s l b.core c0)
     (hfail : (runOps faulty ops l b).2 = false) :
     (runOps faulty ops l b).1.core = c0 := by
@@ -74,12 +79,12 @@ theorem runOps_fail_core (faulty : Nat → Bool) (ops : List MicroOp) (s : Scan)
       obtain ⟨hd, hrest⟩ := hs
       have h := hinv hd
       simp only [runOps] at hfail ⊢
-      by_cases hf : faulty b.calls = true
+      by_cases hf : faulty.raises b.calls = true
       · simp only [hf, if_true]
         obtain ⟨h1, h2, h3⟩ := h
         by_cases ht : s.inTry = true
         · simp only [ht, if_true] at h3
-          rw [h3.1]
+          rw [h3.1, h3.2.1]
           cases hb : b.core
           cases c0
           simp_all
@@ -107,19 +112,19 @@ theorem runOps_fail_core (faulty : Nat → Bool) (ops : List MicroOp) (s : Scan)
         intro hd
         have h := hinv hd
         simp only [ht, if_true] at h ⊢
-        exact ⟨h.1, h.2.1, h.2.2.1, by intro hp; simp at hp⟩
+        exact ⟨h.1, h.2.1, h.2.2.1, h.2.2.2.1, by intro hp; simp at hp⟩
       · simp only [ht] at hs
         exact ih _ _ _ hs (by intro h; simp at h) hfail
-    | tryBegin =>
+    | tryBegin ca =>
       simp only [scanOps, Bool.and_eq_true, Bool.not_eq_true'] at hs
-      obtain ⟨ht, hrest⟩ := hs
+      obtain ⟨⟨ht, hca⟩, hrest⟩ := hs
       simp only [runOps] at hfail ⊢
       refine ih _ _ _ hrest ?_ hfail
       intro hd
       have h := hinv hd
       simp only [ht] at h
       simp only [if_true]
-      exact ⟨h.1, h.2.1, by rw [h.2.2.2], fun _ => h.2.2.2⟩
+      exact ⟨h.1, h.2.1, by rw [h.2.2.2], hca, fun _ => h.2.2.2⟩
     | tryEnd =>
       simp only [scanOps, Bool.and_eq_true] at hs
       obtain ⟨ht, hrest⟩ := hs
@@ -130,12 +135,15 @@ theorem runOps_fail_core (faulty : Nat → Bool) (ops : List MicroOp) (s : Scan)
       have h := hinv hd.1
       simp only [ht, if_true] at h
       simp only [Bool.false_eq_true, if_false]
-      exact ⟨h.1, h.2.1, trivial, h.2.2.2 hd.2⟩
+      exact ⟨h.1, h.2.1, trivial, h.2.2.2.2 hd.2⟩
     | initStep => simp [scanOps] at hs
     | loadNet => simp [scanOps] at hs
     | control p v => simp [scanOps] at hs
     | record => simp [scanOps] at hs
     | initResults => simp [scanOps] at hs
+    | traceCompute => simp [scanOps] at hs
+    | traceRead => simp [scanOps] at hs
+    | traceClear => simp [scanOps] at hs
 
 /-! ### the step counter after a fault-free run -/
 
@@ -149,7 +157,7 @@ theorem runOps_noFault_step (ops : List MicroOp) (l : Local) (b : BState) :
   induction ops generalizing l b with
   | nil => simp [runOps, finalStep]
   | cons op rest ih =>
-    cases op <;> simp only [runOps, finalStep, noFault, Bool.false_eq_true, if_false] <;> rw [ih]
+    cases op <;> simp only [runOps, finalStep, noFault_raises, Bool.false_eq_true, if_false] <;> rw [ih]
 
 theorem finalStep_last (ops : List MicroOp) (entry cur : Int) :
     finalStep ops entry cur = match lastSetStep ops with
